@@ -22,6 +22,7 @@ def count_fn(name):
             # consequences proved abstractly by the lemma tasks of add_count_lemmas (stated pairwise, DESIGN 2.5)
             (f"{name}.lemma.monotone", f"forall(j, 0, {n} + 1, forall(k, 0, {n} + 1, implies(j <= k, {name}(j) <= {name}(k))))"),
             (f"{name}.lemma.bounded", f"forall(k, 0, {n} + 1, 0 <= {name}(k) and {name}(k) <= k)"),
+            (f"{name}.lemma.increments_at_most_one", f"forall(j, 0, {n} + 1, forall(k, 0, {n} + 1, implies(j <= k, {name}(k) - {name}(j) <= k - j)))"),
             (f"{name}.lemma.strict_after_hit", f"forall(j, 0, {n}, forall(k, 0, {n} + 1, implies(j < k and ({pred('j')}), {name}(j) < {name}(k))))"),
         ]
     return ghost, defs
@@ -54,6 +55,14 @@ def add_count_lemmas(P):
     def strict_step(z):
         return defs + [j >= 0, k > j, c(j) < c(k)], c(j) < c(k + 1)
 
+    def lip_base(z):
+        return defs + [j >= 0], c(j) - c(j) <= 0
+
+    def lip_step(z):
+        return defs + [j >= 0, k >= j, c(k) - c(j) <= k - j], c(k + 1) - c(j) <= k + 1 - j
+
+    P.lemma("count.increments_at_most_one.base", lip_base)
+    P.lemma("count.increments_at_most_one.step", lip_step)
     for nm, b in (("count.monotone.base", mono_base), ("count.monotone.step", mono_step), ("count.bounded.base", bound_base),
                   ("count.bounded.step", bound_step), ("count.strict_after_hit.base", strict_base), ("count.strict_after_hit.step", strict_step)):
         P.lemma(nm, b)
